@@ -21,8 +21,6 @@ enum Mode {
     Rc,             // by_rc() from the start
     RefThenRc(u8),  // by_ref for the first k steps (re-split every step), then by_rc
     CloneAt(u8),    // by_ref (re-split every step) for the first k steps, then the fork is cloned and the CLONE is driven
-    FaultRef(u8),   // by_ref held; the source fails (panics) once after k pulls, the caller catches it and repeats the call
-    FaultRc(u8),    // the same through by_rc
 }
 
 impl Mode {
@@ -33,8 +31,6 @@ impl Mode {
             Mode::Rc => "rc".into(),
             Mode::RefThenRc(k) => format!("ref_then_rc:{k}"),
             Mode::CloneAt(k) => format!("clone_at:{k}"),
-            Mode::FaultRef(k) => format!("fault_ref:{k}"),
-            Mode::FaultRc(k) => format!("fault_rc:{k}"),
         }
     }
     fn parse(s: &str) -> Option<Mode> {
@@ -42,8 +38,6 @@ impl Mode {
             "ref_hold" => Mode::RefHold,
             "ref_resplit" => Mode::RefResplit,
             "rc" => Mode::Rc,
-            _ if s.starts_with("fault_ref:") => Mode::FaultRef(s.strip_prefix("fault_ref:")?.parse().ok()?),
-            _ if s.starts_with("fault_rc:") => Mode::FaultRc(s.strip_prefix("fault_rc:")?.parse().ok()?),
             _ if s.starts_with("clone_at:") => Mode::CloneAt(s.strip_prefix("clone_at:")?.parse().ok()?),
             _ => Mode::RefThenRc(s.strip_prefix("ref_then_rc:")?.parse().ok()?),
         })
@@ -104,15 +98,7 @@ fn run_history_inner(cap: usize, start: usize, mode: Mode, hist: u128, len: usiz
     };
     macro_rules! step {
         ($a:expr, $b:expr, $who:expr, $r:expr) => {{
-            // (a source failure injected by the fault modes is caught here and the call repeated:
-            // the failed call handed nothing over, so the streams must be unaffected)
-            let f = loop {
-                match common::catch(|| if $who == 0 { $a.next() } else { $b.next() }) {
-                    Ok(f) => break f,
-                    Err(m) if m.contains("injected source failure") => continue,
-                    Err(m) => panic!("{m}"),
-                }
-            };
+            let f = if $who == 0 { $a.next() } else { $b.next() };
             let pend = [$a.pending_frames(), $b.pending_frames()];
             if let Some(b) = after($r, $who, f, pend, c.pulls(), &tag) {
                 return Err(b);
@@ -199,22 +185,7 @@ fn run_history_inner(cap: usize, start: usize, mode: Mode, hist: u128, len: usiz
                 }
             }
         }
-        Mode::FaultRef(k) => {
-            c.trip.set(Some(k as usize));
-            let (mut a, mut b) = fork.by_ref();
-            while i < len {
-                let who = ((hist >> i) & 1) as usize;
-                if !within(&r, who) {
-                    break;
-                }
-                step!(a, b, who, &mut r);
-                i += 1;
-            }
-        }
-        Mode::Rc | Mode::FaultRc(_) => {
-            if let Mode::FaultRc(k) = mode {
-                c.trip.set(Some(k as usize));
-            }
+        Mode::Rc => {
             let (mut a, mut b) = fork.by_rc();
             while i < len {
                 let who = ((hist >> i) & 1) as usize;
@@ -397,7 +368,7 @@ fn main() {
     }
     let len = ctx.tier.pick(16, 20);
     let maxcap: usize = ctx.tier.pick(4, 6);
-    ctx.rule(&format!("unmerged: every A/B history of length {len} (quick 16 / thorough 20) for capacities 1..=4 (thorough 1..=6), each replayed on a fresh fork over an index-valued instrumented source; a step that would put one branch more than `capacity` ahead ends the history (outside the property's domain); modes: by_ref held, by_ref re-split before every step, by_rc, by_ref for k steps then by_rc for every k, by_ref for k <= 8 steps then Fork::clone() with the rest of the history driven on the clone (by_ref or by_rc), and the source failing (panicking) once after k <= 6 pulls with the failed call caught and repeated (by_ref held / by_rc); every ring start offset; after every step: the branch's k-th frame is k, source pulls == max(posA,posB), pending_frames == lag; non-trivial = a history in which both branches were pulled, distinct by (capacity, start, mode, history)"));
+    ctx.rule(&format!("unmerged: every A/B history of length {len} (quick 16 / thorough 20) for capacities 1..=4 (thorough 1..=6), each replayed on a fresh fork over an index-valued instrumented source; a step that would put one branch more than `capacity` ahead ends the history (outside the property's domain); modes: by_ref held, by_ref re-split before every step, by_rc, by_ref for k steps then by_rc for every k, by_ref for k <= 8 steps then Fork::clone() with the rest of the history driven on the clone (by_ref or by_rc); every ring start offset; after every step: the branch's k-th frame is k, source pulls == max(posA,posB), pending_frames == lag; non-trivial = a history in which both branches were pulled, distinct by (capacity, start, mode, history)"));
     ctx.rule("merged: stateright BFS to fixpoint on (lead, min(posA,posB) mod capacity), also for the larger capacities 8, 16, 24, 32, 48, each transition executed on a real fork rebuilt by replaying the BFS witness history; constructor: fork() accepts every empty ring buffer (any start offset) of capacities 1..=4");
 
     // constructor
@@ -428,10 +399,6 @@ fn main() {
         }
         for k in 0..=(len as u8).min(8) {
             jobs.push((cap, cap / 2, Mode::CloneAt(k)));
-        }
-        for k in 0..=(len as u8).min(6) {
-            jobs.push((cap, cap - 1, Mode::FaultRef(k)));
-            jobs.push((cap, 0, Mode::FaultRc(k)));
         }
     }
     let hist_n = AtomicU64::new(0);
